@@ -3,6 +3,7 @@ package main
 import (
 	"fmt"
 	"go/types"
+	"sort"
 	"strings"
 
 	"golang.org/x/tools/go/ssa"
@@ -122,5 +123,111 @@ func c14RuleFailureFailsSet(w *World, r *Report, fa *factoryAnchors) {
 	}
 	if n == 0 {
 		r.Undecided(ri, "no call of RuleFactory.CreateRule found in internal/rules")
+	}
+}
+
+// c14OneMechanismPerStep (C14.9): a step of the execute list names exactly one mechanism. A step
+// that carries two kind keys (a forgotten dash in YAML: `- authenticator: a` / `  authorizer: deny`)
+// is malformed; a factory that looks the kinds up one after the other and stops at the first one it
+// finds builds a rule without the second mechanism - the rule must be rejected instead. Decided on
+// the function that turns the execute list into stages: before it creates a mechanism from a step,
+// all kind keys have been looked up in that step (in the function or in a helper handed the step).
+func c14OneMechanismPerStep(w *World, r *Report, fa *factoryAnchors) {
+	ri := r.Rule("C14.9", 1, "a pipeline step is inspected for every mechanism kind before a mechanism is created from it (a step naming two mechanisms is not silently reduced to the first)")
+	fn := fa.execPipeline
+	if fn == nil || fn.Blocks == nil {
+		r.Undecided(ri, "the function building the execute pipeline was not found")
+		return
+	}
+	r.Analysed(w.FnName(fn))
+	// the kinds: constant keys looked up in a step (a map element of the list parameter), in fn and its package helpers
+	type lk struct {
+		key string
+		at  ssa.Instruction
+	}
+	var lookups []lk
+	var collect func(g *ssa.Function, at ssa.Instruction, depth int)
+	collect = func(g *ssa.Function, at ssa.Instruction, depth int) {
+		for _, h := range withClosures(g) {
+			eachInstr(h, func(in ssa.Instruction) {
+				if l, ok := in.(*ssa.Lookup); ok {
+					if _, isMap := l.X.Type().Underlying().(*types.Map); isMap {
+						if k, ok := constString(stripConv(l.Index)); ok {
+							a := at
+							if a == nil {
+								a = in
+							}
+							lookups = append(lookups, lk{k, a})
+						}
+					}
+				}
+				if depth < 2 {
+					if c, ok := in.(*ssa.Call); ok {
+						if callee := c.Common().StaticCallee(); callee != nil && callee.Blocks != nil && fnPkgPath(callee) == fnPkgPath(fn) && callee != fn {
+							a := at
+							if a == nil {
+								a = in
+							}
+							// keys given to a helper as constants (createHandler(version, "authorizer", step, ...))
+							for _, arg := range c.Common().Args {
+								if k, ok := constString(stripConv(arg)); ok {
+									lookups = append(lookups, lk{k, a})
+								}
+							}
+							// a loop over a literal list of kinds inside the helper
+							for _, hh := range withClosures(callee) {
+								eachInstr(hh, func(in2 ssa.Instruction) {
+									if st, ok := in2.(*ssa.Store); ok {
+										if k, ok := constString(stripConv(st.Val)); ok {
+											if _, isIA := st.Addr.(*ssa.IndexAddr); isIA {
+												lookups = append(lookups, lk{k, a})
+											}
+										}
+									}
+								})
+							}
+							collect(callee, a, depth+1)
+						}
+					}
+				}
+			})
+		}
+	}
+	collect(fn, nil, 0)
+	kinds := map[string]bool{}
+	creates := findCalls(fn, func(c *ssa.CallCommon) bool {
+		return c.IsInvoke() && strings.HasPrefix(c.Method.Name(), "Create") && c.Method.Name() != "CreateErrorHandler"
+	})
+	// the kinds are the constant keys that some create site depends on: take the keys looked up anywhere
+	for _, l := range lookups {
+		switch l.key {
+		case "config", "if", "id", "":
+		default:
+			kinds[l.key] = true
+		}
+	}
+	var kl []string
+	for k := range kinds {
+		kl = append(kl, k)
+	}
+	sort.Strings(kl)
+	if len(creates) == 0 || len(kl) < 2 {
+		r.Undecided(ri, "mechanism creation sites / kind keys of the execute pipeline not found")
+		return
+	}
+	for i, c := range creates {
+		missing := []string{}
+		for _, k := range kl {
+			seen := false
+			for _, l := range lookups {
+				if l.key == k && l.at.Parent() == fn && dominatesInstr(l.at, c) {
+					seen = true
+				}
+			}
+			if !seen {
+				missing = append(missing, k)
+			}
+		}
+		r.Ob(ri, fmt.Sprintf("%s|create#%d|all-kinds-inspected", w.FnName(fn), i+1), c.Pos(), len(missing) == 0, "a mechanism is created from a step before the step was inspected for "+strings.Join(missing, ", ")+": a step that names two mechanisms silently loses one of them and the rule is loaded without it")
 	}
 }
